@@ -107,6 +107,29 @@ func c15One(l *LabCtx) {
 		fail("validator-set-hash-differs", map[string]interface{}{"n": n, "got": hex.EncodeToString(gotHash), "want": hex.EncodeToString(wantHash), "err": fmt.Sprint(err)})
 	}
 
+	// 7. threshold = two thirds of the total power. Run on its own branch of the chain state, before the direct
+	// CalculateValidatorSetCheckpoint call below advances the checkpoint index to a timestamp without a stored set.
+	if total < 1<<62 {
+		bctx, _ := l.Ctx.CacheContext()
+		err := k.SetBridgeValidatorParams(bctx, set)
+		if err != nil {
+			l.St.Count("c15.threshold.set-params-error")
+		} else {
+			p, err := k.GetValidatorCheckpointParamsFromStorage(bctx, uint64(bctx.BlockTime().UnixMilli()))
+			l.St.Count("c15.threshold.evals")
+			l.St.Bucket("c15|threshold|total%%3=%d|pow=%d", total%3, powClass)
+			want := new(big.Int).Quo(new(big.Int).Mul(new(big.Int).SetUint64(total), big.NewInt(2)), big.NewInt(3))
+			if err != nil || new(big.Int).SetUint64(p.PowerThreshold).Cmp(want) != 0 {
+				fail("power-threshold-not-two-thirds", map[string]interface{}{"total": total, "got": p.PowerThreshold, "want": want.String()})
+			}
+			// stored hash and checkpoint are consistent with the reference for the stored set
+			cp, _ := sh.CheckpointOf(want, new(big.Int).SetUint64(p.Timestamp), wantHash)
+			if !bytes.Equal(p.ValsetHash, wantHash) || !bytes.Equal(p.Checkpoint, cp) {
+				fail("stored-checkpoint-params-inconsistent", map[string]interface{}{"n": n})
+			}
+		}
+	}
+
 	// 2. checkpoint
 	thr, ts := randU64(r), randU64(r)
 	gotCp, err := k.CalculateValidatorSetCheckpoint(l.Ctx, thr, ts, gotHash)
@@ -199,23 +222,6 @@ func c15One(l *LabCtx) {
 	wantTp := new(big.Int).Quo(tp12, big.NewInt(1e12))
 	if err != nil || !rc.Equals(acc.Addr) || am.AmountOf(Denom).BigInt().Cmp(wantAm) != 0 || tp.AmountOf(Denom).BigInt().Cmp(wantTp) != 0 {
 		fail("deposit-value-decodes-differently", map[string]interface{}{"err": fmt.Sprint(err), "amount": am.String(), "want": wantAm.String()})
-	}
-
-	// 7. threshold = two thirds of the total power
-	if total < 1<<62 {
-		if err := k.SetBridgeValidatorParams(l.Ctx, set); err == nil {
-			p, err := k.GetValidatorCheckpointParamsFromStorage(l.Ctx, uint64(l.Ctx.BlockTime().UnixMilli()))
-			l.St.Count("c15.threshold.evals")
-			want := new(big.Int).Quo(new(big.Int).Mul(new(big.Int).SetUint64(total), big.NewInt(2)), big.NewInt(3))
-			if err != nil || new(big.Int).SetUint64(p.PowerThreshold).Cmp(want) != 0 {
-				fail("power-threshold-not-two-thirds", map[string]interface{}{"total": total, "got": p.PowerThreshold, "want": want.String()})
-			}
-			// stored hash and checkpoint are consistent with the reference for the stored set
-			cp, _ := sh.CheckpointOf(want, new(big.Int).SetUint64(p.Timestamp), wantHash)
-			if !bytes.Equal(p.ValsetHash, wantHash) || !bytes.Equal(p.Checkpoint, cp) {
-				fail("stored-checkpoint-params-inconsistent", map[string]interface{}{"n": n})
-			}
-		}
 	}
 
 	// 8. signature convention: what a validator signs (keyring: secp256k1 over sha256(msg)) is what the contract recovers
